@@ -201,6 +201,13 @@ def apply(par, o: dict, tokens: list, variant: int = 0):
         else:
             par.set_reference_mark(_fresh("rm4", par), content=rx, position=o["nth"])
         return par
+    if op == "mark_element":
+        el = par if o["i"] == 0 else nth_element(par, tokens, o["i"])
+        if variant % 2 == 1 and o.get("alone"):
+            par.insert_annotation(body="remark", creator="verif", content=el)
+        else:
+            par.set_reference_mark(_fresh("rm5", par), content=el)
+        return par
     if op == "mark_range":
         pos = (o["a"], o["b"])
         # (an annotation only as the last operation on a paragraph: once it is there, the offsets of later calls
